@@ -1,9 +1,10 @@
 (* C04 — property theorems (statements only; proofs live in Proofs*.v).
    K ranges over ALL fields (Spec.fld); n, matrices, masks, permutations are
    universally quantified, no bounds. *)
-From Coq Require Import List Bool Arith ZArith Permutation.
+From Coq Require Import List Bool Arith ZArith Permutation Lia.
 From ADV Require Import Base.Num C04.Model C04.Spec C04.ProofsDet C04.ProofsBS C04.ProofsPerm C04.ProofsGJ.
 From ADV Require Import C04.ProofsGJ2 C04.ProofsGJ3 C04.ProofsGJ4 C04.ProofsSing C04.ProofsInv C04.ProofsDet2 C04.ProofsEx.
+From ADV Require Import C04.ProofsNaN C04.ProofsNaN2 C04.ProofsDet3.
 Import ListNotations.
 
 (* ---- (4) determinant ---- *)
@@ -313,8 +314,8 @@ Theorem matrix_inverse_positive_definite_correct :
     forall i j, In i (idxs msk 0 n) -> In j (idxs msk 0 n) -> mulS K (idxs msk 0 n) m R i j = delta K i j.
 Proof. exact inverse_pd_correct. Qed.
 
-(* ---- (4') the Laplace determinant (= determinantNaive) is linear in the first row, det I = 1 ----
-   (alternation is NOT proved: determinant_is_alternating is missing for "it is THE determinant") *)
+(* ---- (4') determinantNaive IS the determinant: multilinear in every row, alternating for adjacent
+   rows (hence for all pairs of rows), and det I = 1 — the characterisation of det ---- *)
 Theorem determinant_linear_in_first_row :
   forall (K : fld) (n : nat) (r1 r2 r3 : list K) (c : K) (rest : list (list K)), 1 <= n ->
     (forall j, j < n -> vget (NumK K) r3 j = fadd K (vget (NumK K) r1 j) (fmul K c (vget (NumK K) r2 j))) ->
@@ -325,3 +326,97 @@ Proof. intros. rewrite !det_naive_laplace by auto. apply det_first_row_linear; a
 Theorem determinant_identity :
   forall (K : fld) (n : nat), 1 <= n -> det_naive (NumK K) n (ident (NumK K) n) = f1 K.
 Proof. intros. rewrite det_naive_laplace by auto. apply det_ident. Qed.
+
+(* ---- (5') the singular exits, on a NaN-aware carrier ----
+   Over a field [is_nan] is constantly false and the model's "computationally singular" exits are
+   dead code.  Spec.NumO K isz is the carrier [option K]: None = any non-finite value, x / 0 = None,
+   None absorbing, is_nan None = true, isz any decision procedure for x = 0 — the exits are live,
+   as on binary64.  Embedding finite input (lst), the run of the SAME model text satisfies: *)
+
+(* non-zero pivots: no singular exit; the result is the (finite) embedding of the field result,
+   which satisfies the contract by gauss_jordan_correct *)
+Theorem gauss_jordan_nan_aware_returns :
+  forall (K : fld) (isz : K -> bool), (forall x, isz x = true <-> x = f0 K) ->
+  forall (n : nat) (msk : list bool) (dense : bool) (s0 : st (A:=K)),
+    wf_st K n s0 -> (forall c, In c (gj_pivots (NumK K) n msk s0) -> c <> f0 K) ->
+    exists s', gj_run (NumK K) dense false n msk s0 = Ok s' /\
+               gj_run (NumO K isz) dense false n msk (lst K s0) = Ok (lst K s').
+Proof. exact gj_run_nan_aware. Qed.
+
+(* every run is one of: all pivots non-zero and the finite field result  /  the singular exit
+   (error on the dense path, panic on the generic path)  /  Ok with a non-finite entry in x AND in b *)
+Theorem gauss_jordan_nan_aware_trichotomy :
+  forall (K : fld) (isz : K -> bool), (forall x, isz x = true <-> x = f0 K) ->
+  forall (n : nat) (msk : list bool) (dense : bool) (s0 : st (A:=K)), wf_st K n s0 ->
+    ((forall c, In c (gj_pivots (NumK K) n msk s0) -> c <> f0 K) /\
+     exists s', gj_run (NumK K) dense false n msk s0 = Ok s' /\
+                gj_run (NumO K isz) dense false n msk (lst K s0) = Ok (lst K s'))
+    \/ gj_run (NumO K isz) dense false n msk (lst K s0) = singular_exit K dense
+    \/ exists s', gj_run (NumO K isz) dense false n msk (lst K s0) = Ok s' /\ nonfinite K isz n s'.
+Proof. exact gj_nan_aware_cases. Qed.
+
+(* a finite Ok result is the field result, and then no pivot was zero: "returns Ok finite" => contract *)
+Theorem gauss_jordan_nan_aware_finite_result_sound :
+  forall (K : fld) (isz : K -> bool), (forall x, isz x = true <-> x = f0 K) ->
+  forall (n : nat) (msk : list bool) (dense : bool) (s0 : st (A:=K)) (so : st (A:=option K)),
+    wf_st K n s0 ->
+    gj_run (NumO K isz) dense false n msk (lst K s0) = Ok so -> ~ nonfinite K isz n so ->
+    (forall c, In c (gj_pivots (NumK K) n msk s0) -> c <> f0 K) /\
+    exists s', gj_run (NumK K) dense false n msk s0 = Ok s' /\ so = lst K s'.
+Proof. exact gj_nan_aware_finite_sound. Qed.
+
+(* structurally singular input (zero row / zero column / two identical rows in the selected
+   sub-matrix): the run takes the singular exit or returns non-finite entries — never a finite
+   result presented as the answer *)
+Theorem singular_structure_never_finite :
+  forall (K : fld) (isz : K -> bool), (forall x, isz x = true <-> x = f0 K) ->
+  forall (n : nat) (msk : list bool) (dense : bool) (s0 : st (A:=K)), wf_st K n s0 ->
+    (exists r, zero_row K (idxs msk 0 n) (sa s0) r) \/ (exists c, zero_col K (idxs msk 0 n) (sa s0) c) \/
+    (exists r1 r2, same_rows K (idxs msk 0 n) (sa s0) r1 r2) ->
+    gj_run (NumO K isz) dense false n msk (lst K s0) = singular_exit K dense \/
+    exists s', gj_run (NumO K isz) dense false n msk (lst K s0) = Ok s' /\ nonfinite K isz n s'.
+Proof. exact singular_never_finite. Qed.
+
+Theorem matrix_inverse_singular_never_finite :
+  forall (K : fld) (isz : K -> bool), (forall x, isz x = true <-> x = f0 K) ->
+  forall (n : nat) (msk : list bool) (dense : bool) (m : list (list K)), wf_mat K n m ->
+    (exists r, zero_row K (idxs msk 0 n) m r) \/ (exists c, zero_col K (idxs msk 0 n) m c) \/
+    (exists r1 r2, same_rows K (idxs msk 0 n) m r1 r2) ->
+    m_inverse (NumO K isz) dense InvPlain n msk (lm K m) = (if dense then ErrSingular else PanicSingular) \/
+    exists X, m_inverse (NumO K isz) dense InvPlain n msk (lm K m) = Ok X /\
+              exists r k, r < n /\ mget (NumO K isz) X r k = None.
+Proof. exact inverse_singular_never_finite. Qed.
+
+Theorem matrix_inverse_nan_aware_returns :
+  forall (K : fld) (isz : K -> bool), (forall x, isz x = true <-> x = f0 K) ->
+  forall (n : nat) (msk : list bool) (dense : bool) (m : list (list K)), wf_mat K n m ->
+    (forall c, In c (gj_pivots (NumK K) n msk (mkSt m (ident (NumK K) n) (ones (NumK K) n))) -> c <> f0 K) ->
+    exists X, m_inverse (NumK K) dense InvPlain n msk m = Ok X /\
+              m_inverse (NumO K isz) dense InvPlain n msk (lm K m) = Ok (lm K X).
+Proof. exact inverse_nan_aware. Qed.
+
+(* instances: the decision procedure exists for Qc; zero column -> error (dense path), identical rows ->
+   panic (generic path), regular input -> Ok *)
+Example nan_aware_instances :
+  (forall x : QcK, qisz x = true <-> x = f0 QcK) /\
+  gj_run (NumO QcK qisz) true false 2 (all_true 2)
+         (lst QcK (mkSt (qc [[0;1];[0;2]]%Z) (ident (NumK QcK) 2) (qcv [1;1]%Z))) = ErrSingular /\
+  gj_run (NumO QcK qisz) false false 3 (all_true 3)
+         (lst QcK (mkSt (qc [[1;2;3];[4;5;6];[1;2;3]]%Z) (ident (NumK QcK) 3) (qcv [1;1;1]%Z))) = PanicSingular /\
+  exists s', gj_run (NumO QcK qisz) true false 3 (all_true 3) (lst QcK W0) = Ok s'.
+Proof. exact (conj qisz_spec (conj nan_aware_zero_column_exit (conj nan_aware_identical_rows_exit nan_aware_regular_ok))). Qed.
+
+(* ---- (4'') multilinear in every row, alternating for adjacent rows ---- *)
+Theorem determinant_linear_in_every_row :
+  forall (K : fld) (i n : nat) (a b c : list (list K)) (l : K), i < n ->
+    (forall r j, r < n -> j < n -> r <> i ->
+        mget (NumK K) a r j = mget (NumK K) c r j /\ mget (NumK K) b r j = mget (NumK K) c r j) ->
+    (forall j, j < n -> mget (NumK K) c i j = fadd K (mget (NumK K) a i j) (fmul K l (mget (NumK K) b i j))) ->
+    det_naive (NumK K) n c = fadd K (det_naive (NumK K) n a) (fmul K l (det_naive (NumK K) n b)).
+Proof. intros. rewrite !det_naive_laplace by lia. apply (det_row_linear K i); auto. Qed.
+
+Theorem determinant_alternating_adjacent_rows :
+  forall (K : fld) (i n : nat) (a : list (list K)), S i < n ->
+    (forall j, j < n -> mget (NumK K) a i j = mget (NumK K) a (S i) j) ->
+    det_naive (NumK K) n a = f0 K.
+Proof. intros. rewrite det_naive_laplace by lia. apply (det_adjacent_rows_equal K i); auto. Qed.
